@@ -293,6 +293,51 @@ def check_reject(case, ctx):
     raise Violation("invalid rolling_window call (%s) was accepted: %r" % (case["kind"], res))
 
 
+# ---------------------------------------------------------------- large inputs (vectorised oracle)
+@st.composite
+def large_cases(draw):
+    return dict(n=draw(st.sampled_from([20000, 60000])), seed=draw(st.integers(0, 10**6)), nwe=draw(st.integers(1, 9)), nwn=draw(st.integers(1, 9)),
+                offset=draw(st.sampled_from([0.0, 0.0, 512000.0, -7.52e6])), frac=draw(st.sampled_from([0.5, 1.0, 0.25])), shape2d=draw(st.booleans()))
+
+
+def check_large(case, ctx):
+    """tens of thousands of points on a dyadic lattice (no point on a window edge): every window's members by a vectorised closed-square test"""
+    rng = np.random.RandomState(case["seed"])  # a pure function of the generated case
+    off, n = case["offset"], case["n"]
+    size = 8.0
+    step = size * case["frac"]
+    width_e, width_n = size + (case["nwe"] - 1) * step, size + (case["nwn"] - 1) * step
+    region = (off, off + width_e, -off, -off + width_n)
+    # points at odd multiples of 1/16: never on a window edge (edges are multiples of 1/8 from the region's corner)
+    e = off + (2 * rng.randint(-8, int(width_e * 8) + 8, size=n) + 1) / 16.0
+    nn = -off + (2 * rng.randint(-8, int(width_n * 8) + 8, size=n) + 1) / 16.0
+    if case["shape2d"]:
+        e, nn = e.reshape(4, -1), nn.reshape(4, -1)
+    centres, idx = vd.rolling_window((e, nn), size=size, shape=(case["nwn"], case["nwe"]), region=region)
+    ce, cn = np.asarray(centres[0]), np.asarray(centres[1])
+    ctx.check(ce.shape == (case["nwn"], case["nwe"]) and idx.shape == (case["nwn"], case["nwe"]), "centres / indices must have the window grid's shape")
+    exp_ce = region[0] + size / 2 + step * np.arange(case["nwe"])
+    exp_cn = region[2] + size / 2 + step * np.arange(case["nwn"])
+    ctx.check(np.allclose(ce, exp_ce[None, :], rtol=0, atol=1e-9 * max(abs(off), 1.0)) and np.allclose(cn, exp_cn[:, None], rtol=0, atol=1e-9 * max(abs(off), 1.0)),
+              "window centres are not the regular grid over the region shrunk by half a window")
+    covered = np.zeros(e.shape, dtype=bool)
+    for i in range(case["nwn"]):
+        for j in range(case["nwe"]):
+            members = np.zeros(e.shape, dtype=bool)
+            members[idx[i, j]] = True
+            exp = (np.abs(e - exp_ce[j]) <= size / 2) & (np.abs(nn - exp_cn[i]) <= size / 2)
+            if not np.array_equal(members, exp):
+                k = np.argwhere(members != exp)[0]
+                raise Violation("window (%d, %d) centred at (%r, %r), size %r over %d points: point %r (%r, %r) is %s but %s the closed square" % (
+                    i, j, float(exp_ce[j]), float(exp_cn[i]), size, n, k.tolist(), float(e[tuple(k)]), float(nn[tuple(k)]),
+                    "selected" if members[tuple(k)] else "not selected", "outside" if members[tuple(k)] else "inside"))
+            covered |= members
+    inside = (e >= region[0]) & (e <= region[1]) & (nn >= region[2]) & (nn <= region[3])
+    ctx.check(np.all(covered[inside]), "points inside the region belong to no window although the step (%r) does not exceed the size (%r)", step, size)
+    ctx.label("n%d" % n, "windows%d" % (case["nwn"] * case["nwe"]), "utm" if off else "local", "2d" if case["shape2d"] else "1d")
+    ctx.nt(case["nwn"] * case["nwe"] >= 2)
+
+
 SUBCHECKS = [
     Sub("rolling", check_rolling, strategy=rolling_cases(), quick=250, thorough=1500, shards_quick=4,
         doc="centres vs the C07 model on the shrunk region; per-window membership (closed square), index form, empty windows, coverage"),
@@ -300,4 +345,6 @@ SUBCHECKS = [
         doc="expanding_window membership per size, order of sizes, nesting"),
     Sub("rejects", check_reject, strategy=reject_cases(), quick=150, thorough=500, shards_thorough=2,
         doc="oversize windows, missing shape/spacing and mismatching coordinate shapes are rejected"),
+    Sub("large", check_large, strategy=large_cases(), quick=8, thorough=40, heavy=True,
+        doc="20 000 - 60 000 points (also 2-D, also at UTM-sized offsets): window centres, members of every window and coverage by vectorised tests"),
 ]
